@@ -681,7 +681,7 @@ func c09CssTrigger(k c09CssCase, in []c09CssTok, inOpen bool) []string {
 			add("K-C09-CSS-3")
 		}
 		// K10: a name ending in a hex escape without its terminating white space, a comment, a name character
-		if (t.tt == c09CssIdent || t.tt == c09CssHash || t.tt == c09CssDimension || t.tt == c09CssAtKeyword) && n.cmt && c09CssOpenHexEscape(t.lex) && (c09CssNameByte(n.lex[0]) || n.tt == c09CssLParen) {
+		if (t.tt == c09CssIdent || t.tt == c09CssHash || t.tt == c09CssDimension || t.tt == c09CssAtKeyword) && n.cmt && c09CssOpenHexEscape(t.lex) && (c09CssNameByte(n.lex[0]) || n.tt == c09CssLParen || c09CssIsNum(n.tt)) {
 			add("K-C09-CSS-7")
 		}
 	}
@@ -1376,10 +1376,10 @@ func c09CssStages(c *Ctx) error {
 	st := c.R.StartStage("c09-css-pairs", "every ordered pair of "+strconv.Itoa(len(c09CssValueToks))+" value tokens (identifiers with escapes, numbers, dimensions, hashes, strings, urls, functions, delimiters, CDO/CDC, brackets), written tight, with a space and with a comment between them, as the value of one declaration: real css.Minify, second pass, spec tokeniser on input and output (structure, bad tokens, open end, string/url values, non-value tokens) and the writer check (tokens of the written value = tokens chosen by the minifier); non-trivial = output differs from input")
 	pairs := c09CssPairCases()
 	if !c.Thorough() && !c.Search {
-		// a seeded third of the pair space in the quick tier
+		// a seeded fifth of the pair space in the quick tier
 		var sub []c09CssCase
 		for _, k := range pairs {
-			if r.Intn(3) == 0 {
+			if r.Intn(5) == 0 {
 				sub = append(sub, k)
 			}
 		}
@@ -1397,8 +1397,8 @@ func c09CssStages(c *Ctx) error {
 	for _, s := range c09CssFixedCorpus {
 		cases = append(cases, c09CssCase{src: s, decl: strings.HasPrefix(s, "a{"), tag: "fixed-corpus"})
 	}
-	cases = append(cases, c09CssDeclCases(r, c.N(6000, 150000))...)
-	cases = append(cases, c09CssArgPairCases(r, c.N(4000, 100000))...)
+	cases = append(cases, c09CssDeclCases(r, c.N(4000, 150000))...)
+	cases = append(cases, c09CssArgPairCases(r, c.N(3000, 100000))...)
 	if c.Search {
 		cases = append(cases, c09CssDeclCases(r, 100000)...)
 	}
@@ -1409,7 +1409,7 @@ func c09CssStages(c *Ctx) error {
 
 	st = c.R.StartStage("c09-css-sheet", "generated style sheets: selectors (attribute strings, escapes, combinators with and without spaces, :not()/:is()/:nth-child(), namespaces), at-rules (@charset, @import url(), @media, @supports, @font-face, @page, @keyframes, unknown at-rules, nested), custom properties with blocks, IE hacks, expression(), strings with markup and escaped newlines, kept comments, CDO/CDC; stylesheet mode, KeepCSS2 on/off, Precision 0/3; same checks on the whole sheet; non-trivial = output differs from input")
 	cases = nil
-	for i, n := 0, c.N(4000, 80000); i < n; i++ {
+	for i, n := 0, c.N(3000, 80000); i < n; i++ {
 		k := c09CssCase{src: c09CssSheet(r), css2: r.Chance(25), tag: "sheet"}
 		if r.Chance(15) {
 			k.prec = 3
@@ -1440,10 +1440,10 @@ func c09CssStages(c *Ctx) error {
 			continue
 		}
 		docs = append(docs, string(b))
-		for _, css2 := range []bool{false, true} {
-			cases = append(cases, c09CssCase{src: string(b), css2: css2, tag: "file"})
+		cases = append(cases, c09CssCase{src: string(b), tag: "file"})
+		if c.Thorough() || len(b) < 60000 {
+			cases = append(cases, c09CssCase{src: string(b), css2: true, tag: "file"}, c09CssCase{src: string(b), prec: 3, tag: "file"})
 		}
-		cases = append(cases, c09CssCase{src: string(b), prec: 3, tag: "file"})
 		evs, _ := c04Parse(string(b), false)
 		for _, e := range evs {
 			if e.gt != pcss.DeclarationGrammar || len(e.vals) == 0 {
@@ -1454,12 +1454,12 @@ func c09CssStages(c *Ctx) error {
 				continue
 			}
 			seen[d] = true
-			if c.Thorough() || r.Intn(4) == 0 {
+			if c.Thorough() || r.Intn(6) == 0 {
 				cases = append(cases, c09CssCase{src: "a{" + d + "}", decl: true, css2: r.Chance(20), tag: "file-decl"})
 			}
 		}
 	}
-	for i, n := 0, c.N(3, 40); i < n && len(docs) > 0; i++ {
+	for i, n := 0, c.N(2, 40); i < n && len(docs) > 0; i++ {
 		var sb strings.Builder
 		for j, m := 0, 2+r.Intn(3); j < m; j++ {
 			sb.WriteString(r.Pick(docs))
